@@ -21,8 +21,8 @@ META = {
     "level_note": "Stubs: symbolic clock; truncation model for parse_into_datetime inside versioning (C15 justifies it); opaque message formatting. "
                   "Instants are bounded to a 2-5 s window at microsecond resolution (arithmetic is translation-invariant but that is not proved). "
                   "Real-object obligation is selector-enumerated over tables of offsets.",
-    "technique": "CrossHair symbolic execution of the real versioning functions with a symbolic clock (z3); counterexamples replayed natively",
-    "outside": ["chains longer than 3", "instants outside the window", "marking operations in chains (C07 covers them)"],
+    "technique": "CrossHair symbolic execution of the real versioning functions with a symbolic clock (z3); AST-to-SMT interpretation (pysym) of the timestamp writer; solver-selected enumeration over real objects and marking operations; counterexamples replayed natively",
+    "outside": ["chains longer than 3", "instants outside the window", "marking operations in chains longer than one step (C07 covers sequences)"],
     "assumptions": [CLOCK, PID, FMT],
 }
 
